@@ -738,7 +738,10 @@ def _repeat_loop_measurements(begin_length_list: List[np.ndarray],
 
     begin_length_array = np.tile(temp_begin_length_array, (repetition_count, 1))
 
-    shaped_begin_length_array = np.reshape(begin_length_array, (repetition_count, -1, 2))
+    # the number of windows per repetition is given explicitly: -1 cannot be inferred for repetition_count == 0 (a
+    # volatile repetition count updated to 0), where the result is simply empty
+    shaped_begin_length_array = np.reshape(begin_length_array,
+                                           (repetition_count, temp_begin_length_array.shape[0], 2))
 
     shaped_begin_length_array[:, :, 0] += (np.arange(repetition_count) * body_duration)[:, np.newaxis]
 
